@@ -249,3 +249,30 @@ def reuse_rule(ctx, rule_fn, old_id, new_id, description, keep, min_instances=1)
         else:
             r.ok(c, i.loc, i.reason)
     return r
+
+
+def positive_example(ctx, rule_fn, edits, expect_fragment):
+    """For rules whose expected violation count on a healthy tree is zero: apply
+    a tiny built-in break (text edits / extra files) to the current sources in
+    memory and require the rule to flag it — so that the rule cannot silently
+    stop matching anything.  ``edits`` is a list of (path, old, new) or
+    (path, None, full_source) for an added file."""
+    from ..engine.program import AnalysisError, Program
+    from ..engine.report import Ctx
+
+    src = dict(ctx.p.sources)
+    for path, old, new in edits:
+        if old is None:
+            src[path] = new
+        else:
+            if src.get(path, "").count(old) != 1:
+                return "skipped (anchor of the built-in positive example not present)"
+            src[path] = src[path].replace(old, new)
+    c2 = Ctx(Program(src, label="positive-example"), "quick")
+    c2._is_positive_example = True
+    res = rule_fn(c2)
+    hits = [i for i in res.instances if i.verdict == "violation" and expect_fragment in i.construct]
+    if not hits:
+        raise AnalysisError(f"rule {res.rule} no longer flags its built-in positive example "
+                            f"(*{expect_fragment}*)")
+    return f"built-in positive example flagged: {hits[0].construct}"
